@@ -4,11 +4,11 @@ CONSTANTS
   Nodes = {"n1"}
   PodNames = {"p1"}
   VMNames = {}
-  BlockIds = {"10.0.1.0/30"}
+  BlockIds = {"10.0.1.0/30", "10.0.2.0/30"}
   IPsOf <- IPsTiny
   PodIPChoices <- IPChoices1
   AllocChoices <- QuickChoices
-  Cap = 6
+  Cap = 12
   ShortSleep = 3
   LongSleep = 27
   MaxSyncs = 3
